@@ -87,7 +87,7 @@ def simulate_deeper(rep: Report, depth: int, num: int, seed: int):
 
 def describe(q) -> str:
     k = q["k"]
-    if k in ("aff", "cadd", "perm", "flip", "ident", "scan"):
+    if k in ("aff", "cadd", "perm", "flip", "ident", "scan", "tril", "triu"):
         return f"{k}{tuple(q['shape'])}"
     if k in ("chain", "concat", "stack"):
         ax = "" if k == "chain" else f",axis={q['axis']}"
